@@ -417,13 +417,17 @@ def check_creds(ctx):
         any(c.kind == 'test' and not c.pol and 'isinstance(creds' in U(
             c.expr) and 'RequestContext' in U(c.expr) for c in p.conds)
         and any(c.kind == 'test' and not c.pol and 'isinstance(creds' in U(
-            c.expr) and 'Mapping' in U(c.expr) for c in p.conds)
+            c.expr) and ('MutableMapping' in U(c.expr)
+                         or U(c.expr).endswith(', dict)'))
+                for c in p.conds)
         for p in raises)
     ctx.ob('C08.CREDS', okg, ctx.where(enf.module, enf.node), enf.qual,
            'credentials type gate',
-           'anything that is neither a RequestContext nor a mapping is '
-           'rejected with InvalidContextObject' if okg else
-           'the credentials type gate changed')
+           'anything that is neither a RequestContext nor a mutable '
+           'mapping is rejected with InvalidContextObject' if okg else
+           'the credentials type gate no longer demands a RequestContext or '
+           'a *mutable* mapping although enforce writes creds[\'system\']: '
+           'other objects fail later with an undocumented exception')
     # RequestContext is mapped, mappings are used as they are
     mapped = [p for p in t.paths if any(
         c.kind == 'test' and c.pol and 'RequestContext' in U(c.expr)
@@ -464,3 +468,6 @@ def check(ctx):
     check_mirror(ctx, gate)
     check_creds(ctx)
     check_opt(ctx)
+    # C08.OBJ: scope types declared on one check object stay on that object
+    from .c12 import check_identity
+    check_identity(ctx, 'C08.OBJ')
